@@ -1906,7 +1906,9 @@ impl XmlDocumentTypeDeclaration {
                             declaration.borrow_mut().push_child(entity);
                         }
                         parser::DeclarationEntity::ParameterEntity(_) => {
-                            unimplemented!("Not support parameter entity reference.")
+                            return Err(error::Error::InvalidData(
+                                "Not support parameter entity reference.".to_string(),
+                            ));
                         }
                     },
                     parser::DeclarationMarkup::Notation(v) => {
@@ -1919,7 +1921,9 @@ impl XmlDocumentTypeDeclaration {
                     }
                 },
                 parser::InternalSubset::ParameterEntityReference(_) => {
-                    unimplemented!("Not support parameter entity reference.")
+                    return Err(error::Error::InvalidData(
+                        "Not support parameter entity reference.".to_string(),
+                    ));
                 }
                 parser::InternalSubset::Whitespace(_) => {
                     // drop
@@ -4221,7 +4225,9 @@ fn attr_value_from_name(name: &str, context: &Context) -> error::Result<String> 
                 parsed.push_str(v.as_str());
             }
             XmlEntityValue::Parameter(_) => {
-                unimplemented!("Not support parameter entity reference.")
+                return Err(error::Error::InvalidData(
+                    "Not support parameter entity reference.".to_string(),
+                ));
             }
             XmlEntityValue::Text(v) => parsed.push_str(normalize_ws(v).as_str()),
         }
